@@ -860,6 +860,32 @@ impl<'ps> PartitionKey<'ps> {
     }
 }
 
+/// Verification harness: builds a `PreparedStatement` exactly as a PREPARE round trip does, from the
+/// bytes of a RESULT/Prepared response body (real parser, `RawPreparedStatement`), and selects the
+/// partitioner the way the session does from the table's partitioner name.
+#[cfg(scylla_verif)]
+impl PreparedStatement {
+    #[doc(hidden)]
+    pub fn verif_from_prepared_response_body(
+        statement_text: &str,
+        body: &[u8],
+        table_partitioner: Option<&str>,
+    ) -> Result<PreparedStatement, String> {
+        let parsed = result::deserialize(Bytes::copy_from_slice(body), None).map_err(|e| e.to_string())?;
+        let result::Result::Prepared(prepared_response) = parsed else {
+            return Err("not a RESULT/Prepared body".to_string());
+        };
+        let statement = Statement::new(statement_text);
+        let mut ps = RawPreparedStatement::new(&statement, prepared_response, false, None)
+            .into_prepared_statement();
+        let partitioner = table_partitioner
+            .and_then(PartitionerName::from_str)
+            .unwrap_or_default();
+        ps.set_partitioner_name(partitioner);
+        Ok(ps)
+    }
+}
+
 #[cfg(test)]
 mod tests {
     use crate::frame::response::result::{
